@@ -6,6 +6,7 @@
 import OllamaVerif.Proofs.Gguf
 import OllamaVerif.Proofs.GgufRoundTrip
 import OllamaVerif.Proofs.GgufCreate
+import OllamaVerif.Proofs.GgufSort
 
 namespace OllamaVerif.C05
 open OllamaVerif OllamaVerif.Gguf
@@ -81,6 +82,31 @@ theorem decode_encode (kvs : List (Bytes × KVal)) (ts : List TIn) (file : Bytes
              (encHead false align kvs ts).length + padding (encHead false align kvs ts).length align, file.length⟩ :=
   OllamaVerif.Gguf.decode_encode kvs ts file align maxArraySize hsorted hnodup hnoparam hwkv hwt hnk hnt halign hpos
     hoff henc hlen
+
+/-- **Round trip, keys given in any order** (the writer sorts them: `slices.Sort(keys)`): the decoder
+    returns the written keys and values in key order (`sortKVs kvs`; for a Go map the order is
+    immaterial) followed by the parameter count. -/
+theorem decode_encode_any_key_order (kvs : List (Bytes × KVal)) (ts : List TIn) (file : Bytes) (align : Nat)
+    (maxArraySize : Int)
+    (hnodup : (kvs.map (·.1)).Nodup)
+    (hnoparam : ∀ kv ∈ kvs, kv.1 ≠ keyParamCount)
+    (hwkv : ∀ kv ∈ kvs, WfKV kv) (hwt : ∀ t ∈ ts, WfTensor t ∧ WfT t)
+    (hnk : kvs.length < two64) (hnt : ts.length < two64)
+    (halign : alignmentIn kvs = .ok align) (hpos : 0 < align)
+    (hoff : ∀ o ∈ offsets false align ts 0, o < two64)
+    (henc : encode false kvs ts = .ok file) (hlen : file.length < two63) :
+    decode file maxArraySize none
+      = .ok ⟨3, (sortKVs kvs).map (fun kv => (kv.1, toVal (if maxArraySize = 0 then 1024 else maxArraySize) kv.2)) ++
+                [(keyParamCount, .scalar 10 (sumParameters (infosOf ts (offsets false align ts 0))))],
+             infosOf ts (offsets false align ts 0),
+             (encHead false align kvs ts).length + padding (encHead false align kvs ts).length align, file.length⟩ :=
+  OllamaVerif.Gguf.decode_encode_any_order kvs ts file align maxArraySize hnodup hnoparam hwkv hwt hnk hnt halign hpos
+    hoff henc hlen
+
+/-- the decoded keys are exactly the written keys (as a set) plus the parameter count -/
+theorem decoded_keys_are_written_keys (kvs : List (Bytes × KVal)) (k : Bytes) :
+    k ∈ (sortKVs kvs).map (·.1) ↔ k ∈ kvs.map (·.1) :=
+  ((sortKVs_perm kvs).map (·.1)).mem_iff
 
 /-- corollary: the end offset reported by the decoder equals the file length -/
 theorem end_offset_is_file_length (kvs : List (Bytes × KVal)) (ts : List TIn) (file : Bytes) (align : Nat) (maxA : Int)
